@@ -90,7 +90,9 @@ def export_shapes():
            ("Equals", ("StrIndexOf", st, tt, x), y), ("Equals", ("StrReplace", st, tt, st), tt),
            ("Equals", ("StrSubstr", st, x, y), tt), ("StrPrefixOf", st, tt), ("StrSuffixOf", st, tt),
            ("Equals", ("StrToInt", st), x), ("Equals", ("IntToStr", x), st), ("Equals", ("StrCharAt", st, x), tt),
-           ("Equals", st, L('a"b', ("STRING",))), ("Equals", st, L("", ("STRING",))), ("Equals", st, L("semi;colon (paren", ("STRING",)))]
+           ("Equals", st, L('a"b', ("STRING",))), ("Equals", st, L("", ("STRING",))), ("Equals", st, L("semi;colon (paren", ("STRING",))),
+           ("Equals", st, L("line1\r\nline2", ("STRING",))), ("Equals", st, L("tab\there | bar", ("STRING",))),
+           ("And", S("cr\rname"), ("Or", S("cr\rname"), S("crname"))), ("And", S("nl\nname"), ("Not", S("nlname")))]
     # arrays, functions, custom sorts
     sh += [("Equals", ("Select", arr, x), y), ("Equals", ("Store", arr, x, y), arr), ("Equals", ("Select", abv, u), S("w8", B8)),
            ("Select", ("Select", aa, x), y), ("Equals", ("Array", ("type", INT), L(0, INT)), arr),
@@ -120,6 +122,11 @@ def export_shapes():
            ("Equals", ("Select", ("Array", ("type", INT), x, ("dict", (L(3, INT), y), (L(-1, INT), ("Plus", x, y)))), z), x),
            ("Equals", ("Array", ("type", B4), L(0, B8), ("dict", (L(1, B4), L(255, B8)), (L(15, B4), S("w8", B8)))), abv),
            ("Select", ("Array", ("type", INT), L(False, BOOL), ("dict", (L(10, INT), a), (L(2, INT), ("Or", a, b)))), x)]
+    # a quantifier nested inside a quantifier of the same kind (body refers to the outer variable after the inner binder)
+    sh += [("forall", [("a", BOOL)], ("Or", a, ("forall", [("b", BOOL)], ("Or", a, b)))),
+           ("exists", [("x", INT)], ("And", ("exists", [("y", INT)], ("LT", x, y)), ("LT", x, z))),
+           ("forall", [("a", BOOL)], ("And", ("forall", [("b", BOOL), ("c", BOOL)], ("Or", a, b, c)), ("forall", [("c", BOOL)], ("Or", c, a)), a)),
+           ("exists", [("x", INT), ("y", INT)], ("exists", [("x", INT)], ("exists", [("z", INT)], ("LT", ("Plus", x, y), z))))]
     # sorts that occur on bound variables only, or only as the index sort of a constant array
     SB, SC, PB_ = ("CUSTOM", "Sb"), ("CUSTOM", "Sc"), ("CUSTOM", "PairB", (INT, ("CUSTOM", "Sb")))
     sh += [("exists", [("xb", SB), ("yb", SB)], ("Not", ("Equals", S("xb", SB), S("yb", SB)))),
@@ -382,6 +389,11 @@ def import_corpus():
     add("redeclare-sort-after-pop", "(push 1)(declare-sort U2 0)(declare-fun e () U2)(assert (= e e))(pop 1)(declare-sort U2 0)(declare-fun e () U2)"
         "(assert (not (= e e)))")
     add("redeclare-const-after-pop-2", "(declare-fun a () Bool)(push 1)(declare-const k Int)(push 1)(assert (< k 1))(pop 1)(assert (< k 3))(pop 1)(declare-const k Int)(assert (< k 2))")
+    # characters that are white space between tokens are content inside string literals and quoted symbols
+    add("cr-in-string", ST + '(assert (= st "a\rb"))(assert (= (str.len "a\rb") 3))')
+    add("newline-tab-in-string", ST + '(assert (= st "a\nb\tc"))(assert (= (str.len "a\n\r\tb") 5))')
+    add("cr-in-quoted-symbol", "(declare-fun |a\rb| () Bool)(declare-fun ab () Bool)(assert (and |a\rb| (not ab)))")
+    add("newline-in-quoted-symbol", "(declare-fun |a\nb| () Bool)(declare-fun |a b| () Bool)(declare-fun ab () Bool)(assert (and |a\nb| (not ab) (not |a b|)))")
     add("define-fun-nested", D + "(define-fun g ((t Int)) Int (+ t 1))(define-fun g2 ((t Int)) Int (g (g t)))(assert (= (g2 x) y))")
     add("define-fun-bool", D + "(define-fun both ((p Bool) (q Bool)) Bool (and p q))(assert (both a (both b c)))")
     add("define-fun-quoted-params", D + "(define-fun g ((|a b| Int) (|c d| Bool)) Int (ite |c d| |a b| x))(assert (= (g y a) z))")
@@ -800,6 +812,9 @@ def _hr_job(shape_t):
         return out
     if st == "raise":
         out["kind"], out["detail"] = "rejected", "the human-readable parser rejects %r: %s" % (txt[:120], g)
+        if _outside_hr_fragment(shape_t) and "UndefinedSymbolError" in str(g):
+            out["kind"] = "outside"
+            out["detail"] = "outside the parser's fragment (the grammar has no names for user sorts inside a type expression): rejected with %s" % (g,)
         return out
     if g is f:
         out["kind"], out["detail"] = "valid", "same node"
@@ -824,6 +839,20 @@ def _hr_job(shape_t):
     else:
         out["kind"], out["detail"] = "unsupported", why
     return out
+
+
+def _outside_hr_fragment(t):
+    """Array-value literals print their type, Array{Index, Element}(...); when a user sort occurs in it the text is
+    outside the human-readable grammar (which names Bool / Int / Real / BV / Array only) - the property quantifies over
+    the parser's fragment."""
+    def custom(so):
+        return isinstance(so, tuple) and so and (so[0] == "CUSTOM" or any(custom(x) for x in so[1:] if isinstance(x, tuple)))
+    if not isinstance(t, tuple):
+        return False
+    if t and t[0] == "Array" and len(t) > 1 and isinstance(t[1], tuple) and t[1][0] == "type" and custom(t[1][1]):
+        return True
+    return any(_outside_hr_fragment(x) for x in t[1:] if isinstance(x, (tuple, list))) or \
+        any(_outside_hr_fragment(y) for x in t[1:] if isinstance(x, list) for y in x)
 
 
 _HR = {}
